@@ -301,7 +301,7 @@ Definition next_starts_expu (ts:list tok) : bool :=
   match ts with t :: _ => starts_expu t | [] => false end.
 
 (* ------------------------------------------------------------------ AST *)
-Definition N := 10%nat.
+Definition NLEV := 10%nat.
 
 Inductive lit := LNum (s:text) | LHex (s:text) | LStr (s:text) | LTrue (s:text) | LFalse (s:text).
 
@@ -369,7 +369,7 @@ with size_stmt (s:stmt) : nat :=
   | SLocal _ e => S (size e)
   end.
 
-Definition lvl (t:tree) : nat := match t with Bin k _ _ _ => k | _ => N end.
+Definition lvl (t:tree) : nat := match t with Bin k _ _ _ => k | _ => NLEV end.
 
 (* ------------------------------------------------------------------ parser *)
 Inductive pres (A:Type) := POk (a:A) | PErr | POut.
@@ -404,12 +404,12 @@ Fixpoint p_exp (f:nat) (k:nat) (ts:list tok) {struct f} : pres (tree * list tok)
   match f with
   | O => POut
   | S f =>
-    if (N <=? k)%nat then
+    if (NLEV <=? k)%nat then
       match ts with
       | [] => PErr
       | t :: r =>
         (* a thunk: the extracted code is strict, the operand must only be parsed when the token is unary *)
-        let unary := fun (_:unit) => match p_exp f N r with
+        let unary := fun (_:unit) => match p_exp f NLEV r with
                                      | POk (a, r') => POk (Un (tok_name t) a, r')
                                      | PErr => PErr | POut => POut
                                      end in
@@ -695,7 +695,7 @@ Fixpoint pr (k:nat) (t:tree) : list A :=
              | Lit l => [F (raw_of_lit l)]
              | Var s => [F (RIdent s)]
              | Nul s => [F (raw_of_name s)]
-             | Un s a => F (raw_of_name s) :: pr N a
+             | Un s a => F (raw_of_name s) :: pr NLEV a
              | Bin j s l r => pr j l ++ F (raw_of_name s) :: pr (S j) r
              | Arr es => F RSquareO :: join [F RComma] (map (pr 0%nat) es) ++ [F RSquareC]
              | Code ss => F RCurlyO :: (seps (lay_lead lay) ++ join mid (map pr_stmt ss) ++ seps (lay_trail lay)) ++ [F RCurlyC]
@@ -705,7 +705,7 @@ Fixpoint pr (k:nat) (t:tree) : list A :=
 with pr_stmt (s:stmt) : list A :=
   match s with
   | SExpr e => pr 0%nat e
-  | SAssign x e => pr N x ++ F REqual :: pr 0%nat e
+  | SAssign x e => pr NLEV x ++ F REqual :: pr 0%nat e
   | SLocal x e => F (RPrivate kw_private) :: F (RIdent x) :: F REqual :: pr 0%nat e
   end.
 Definition pr_block (ss:list stmt) : list A :=
@@ -725,15 +725,15 @@ Section Wf.
 Variable R : registry.
 Definition name_tok (s:text) : tok := classify R (raw_of_name s).
 (* every operator name is registered with the class and level at which the tree uses it; variables
-   are not operator names; a nular operand is a name that is not also unary (see SyntaxProofs.v,
-   nular_operand_UN_refuted, for why) *)
+   are not operator names; a nular operand is a name that is not also unary (see Syntax/Findings.v,
+   un_operand_as_is, for why) *)
 Fixpoint wfb (t:tree) : bool :=
   match t with
   | Lit _ => true
   | Var s => match classify R (RIdent s) with TIdent _ => true | _ => false end
   | Nul s => match name_tok s with TOp c s' => is_nulclass c | _ => false end
   | Un s a => (match name_tok s with TOp c _ => is_unclass c | TPrivate _ => true | _ => false end) && wfb a
-  | Bin k s l r => (k <? N)%nat && (match name_tok s with TOp c _ => is_binclass k c | _ => false end) && wfb l && wfb r
+  | Bin k s l r => (k <? NLEV)%nat && (match name_tok s with TOp c _ => is_binclass k c | _ => false end) && wfb l && wfb r
   | Arr es => forallb wfb es
   | Code ss => forallb wfb_stmt ss
   | Par a => wfb a
